@@ -112,12 +112,31 @@ def run(ctx):
                 ctx.case((label, scaled, fmt), holes > 0, sample=case if holes and len(ctx.samples) < 3 else None)
                 # every other dataset is exported to a name with dots in its stem ('model.v2.0.shp'), next to an earlier export
                 # whose name is a prefix of it
-                stem = f'e{n}' if n % 2 == 0 else f'e{n - 1}.v2.0'
+                stem_of = lambda m: f'e{m}' if m % 2 == 0 else f'e{m - 1}.v2.0'     # noqa: E731
+                # every third dataset is exported over the files of the previous one (an export run again after the model changed):
+                # the files then hold the new geometry only
+                stem = stem_of(n - 1) if n % 3 == 2 else stem_of(n)
+                if n % 3 == 2:
+                    ctx.count('exported over an earlier export')
                 path = os.path.join(tmp, f'{stem}.{ {"geojson": "geojson", "shapefile": "shp", "wkt": "wkt", "wkb": "wkb"}[fmt] }')
                 with warnings.catch_warnings():
                     warnings.simplefilter('ignore')
                     import pathlib
-                    r = attempt(getattr(geometry_ops, f'write_{fmt}'), ds, pathlib.Path(path) if (n + len(fmt)) % 2 else path)
+                    if fmt == 'shapefile' and n % 3 == 1:
+                        # the documented second calling form: one opened file (or path) per component
+                        ctx.count('shapefile:components given one by one')
+                        case['components'] = 'shp, shx, dbf, prj given as opened files'
+                        base = path[:-4]
+                        hs = {e: open(base + '.' + e, 'w' if e == 'prj' else 'wb') for e in ('shp', 'shx', 'dbf', 'prj')}
+                        try:
+                            r = attempt(geometry_ops.write_shapefile, ds, shp=hs['shp'], shx=hs['shx'], dbf=hs['dbf'], prj=hs['prj'])
+                        finally:
+                            for h in hs.values():
+                                h.close()
+                        if r[0] == 'ok' and not open(base + '.prj').read().strip():
+                            r = ('err', 'nothing was written to the opened prj file')
+                    else:
+                        r = attempt(getattr(geometry_ops, f'write_{fmt}'), ds, pathlib.Path(path) if (n + len(fmt)) % 2 else path)
                 if r[0] != 'ok':
                     ctx.report('property', f'write_{fmt} failed: {r[1]}', case)
                     continue
